@@ -121,15 +121,21 @@ def one(task):
         return r
     prods = [(l, [("T", key_index(num, s[1])) if s[0] == "T" else s for s in rhs]) for l, rhs in gs.bnf]
     N = task["N"]
-    steps = 6 * N + 10
-    for attempt in range(3):
-        sim = lrtab.LRSim(T, N, steps=steps)
-        L = C.Lang(prods, gs.start, {i: i for i in T.term_ids}, sim.toks, sim.n, N)
-        res = sim.check(L.sentence(), timeout_ms=task.get("timeout_ms", 300000))
-        if res["bound_too_small"]["status"] != "sat":
+    while True:
+        steps = 6 * N + 10
+        for attempt in range(3):
+            sim = lrtab.LRSim(T, N, steps=steps)
+            L = C.Lang(prods, gs.start, {i: i for i in T.term_ids}, sim.toks, sim.n, N)
+            res = sim.check(L.sentence(), timeout_ms=task.get("timeout_ms", 240000))
+            if res["bound_too_small"]["status"] != "sat":
+                break
+            steps *= 2          # deep unit-production chains need more reductions per token
+        if N <= 4 or not any(d["status"] == "unknown" for d in res.values()):
             break
-        steps *= 2          # deep unit-production chains need more reductions per token
+        N -= 2              # solver time-out: decide a smaller bound and say so
     r["unroll_steps"] = steps
+    r["N"] = N
+    r["N_requested"] = task["N"]
     inv = {v: k for k, v in num.items()}
     for name, d in res.items():
         if d["status"] == "sat":
@@ -150,7 +156,7 @@ def one(task):
 
 def check_main(prop="C03", conflicts=False):
     run = Run(prop, "translation_validation")
-    N = 6 if tier() == "quick" else 9
+    N = 6 if tier() == "quick" else 8
     files = [f for f in GL.select(P.corpus()) if read_par(f).is_lalr()]
     random.Random(seed()).shuffle(files)
     arts = GL.generate(files, want_parser=True)
@@ -166,8 +172,16 @@ def check_main(prop="C03", conflicts=False):
             continue
         nstates = open(a["parser"], encoding="utf-8").read().count("LR1State {")
         tasks.append({"grammar": a["grammar"], "parser": a["parser"], "e": a["e"], "N": (3 if nstates > 40 else N)})
-    with cf.ProcessPoolExecutor(max_workers=12) as ex:
-        res = list(ex.map(one, tasks))
+    import multiprocessing as mp
+    res = [None] * len(tasks)
+    with mp.get_context("fork").Pool(processes=12, maxtasksperchild=10) as pool:
+        hs = [pool.apply_async(one, (t,)) for t in tasks]
+        for i, h in enumerate(hs):
+            try:
+                res[i] = h.get(timeout=2400)
+            except Exception as e:
+                res[i] = dict(tasks[i], status="worker_failed", error="%s: %s" % (type(e).__name__, str(e)[:200]))
+        pool.terminate()
     programs = disagreements = queries = 0
     tsolver = 0.0
     samples = []
